@@ -42,7 +42,7 @@ def grid(ctx):
     second = [(0, None), (3, 7), (1, None), (2, None)]
     for kind in range(9):
         for dec in range(4):
-            for dcl in (None, 5):
+            for dcl in (None, 0, 5):        # 0 = ConsistencyLevel.ANY (falsy)
                 for idem in (False, True):
                     for same_ok in (True, False):
                         d2, c2 = second[(kind + dec) % 4]
@@ -59,6 +59,70 @@ def grid(ctx):
                             sc['ops'].append(op)
                             obs.append(orc.step(i, op))
                         items.append((sc, obs, orc.bad, {'nontrivial': True, 'sample': len(items) in (3, 77)}))
+    return items
+
+
+def run_ops(sc, ops):
+    run = H.Run(sc)
+    orc = K.Oracle(sc, run, PID)
+    obs = []
+    for i, op in enumerate(ops):
+        if op[0] == 'run' and not run.env.queue:
+            continue
+        if op[0] == 'resp' and op[1] not in run.open_attempts():
+            continue
+        if op[0] == 'spec' and not run.spec_armed():
+            continue
+        sc['ops'].append(op)
+        obs.append(orc.step(len(sc['ops']) - 1, op))
+    return obs, orc.bad, run
+
+
+def levels(ctx):
+    """every consistency level a policy can choose (all 11, ANY = 0 included, and None) x RETRY / RETRY_NEXT_HOST x initial level"""
+    items = []
+    for dec in (0, 3):
+        for dcl in [None] + list(range(11)):
+            for cl0 in (1, 6, 0):
+                for kind in (0, 3, 7):
+                    sc = base(cl=cl0, script=[[dec, dcl], [dec, None], [1, None]])
+                    obs, bad, run = run_ops(sc, [['start'], ['resp', 0, [3, kind, 10]], ['run', 0], ['resp', 1, [3, (kind + 1) % 9, 11]],
+                                                 ['run', 0], ['resp', 2, [3, 2, 12]]])
+                    items.append((sc, obs, bad, {'nontrivial': True, 'sample': len(items) == 9}))
+    return items
+
+
+def speculative(ctx):
+    """two attempts in flight (speculative execution fired before the first answer): every failure kind x decision x which attempt
+    fails first; the same-host retry must go to the host whose answer was decided upon"""
+    items = []
+    for kind in range(9):
+        for dec in range(4):
+            for first in (0, 1):
+                for dcl in (None, 0, 7):
+                    if dcl == 7 and (kind + dec) % 3:
+                        continue
+                    sc = base(idem=True, spec=[True, 2], script=[[dec, dcl], [(dec + 1) % 4, None], [1, None], [1, None]])
+                    obs, bad, run = run_ops(sc, [['start'], ['spec'], ['resp', first, [3, kind, 10]], ['run', 0],
+                                                 ['resp', 1 - first, [3, (kind + 3) % 9, 11]], ['run', 0], ['resp', 2, [0]], ['resp', 3, [1]]])
+                    items.append((sc, obs, bad, {'nontrivial': True, 'sample': len(items) == 21}))
+    return items
+
+
+def bound_flags(ctx):
+    """BoundStatement / PreparedStatement idempotence flags that differ (the executed statement is the bound one), and simple
+    statements, x speculative policy present? x max_attempts"""
+    items = []
+    for ps in ([7, 3, None], None):
+        for idem in (False, True):
+            for pidem in ((None, False, True) if ps else (None,)):
+                for has_pol in (False, True):
+                    for maxa in (0, 1, 2):
+                        sc = base(ps=ps, idem=idem, spec=[has_pol, maxa], script=[[3, None], [1, None]])
+                        if pidem is not None:
+                            sc['pidem'] = pidem
+                        obs, bad, run = run_ops(sc, [['start'], ['spec'], ['spec'], ['resp', 0, [3, 3, 10]], ['run', 0], ['resp', 1, [0]]])
+                        items.append((sc, obs, bad, {'nontrivial': True, 'sample': len(items) == 30}))
     return items
 
 
@@ -98,6 +162,10 @@ def run(ctx):
     t = targeted(ctx)
     items += t
     ctx.count('source', 'explicit_target', len(t))
+    for name, fn in (('consistency_levels', levels), ('speculative_in_flight', speculative), ('bound_vs_prepared_flags', bound_flags)):
+        part = fn(ctx)
+        items += part
+        ctx.count('source', name, len(part))
     rd = randoms(ctx, int((900 if ctx.tier == 'quick' else 8000) * K.SCALE))
     items += rd
     ctx.count('source', 'random_history', len(rd))
@@ -106,8 +174,10 @@ def run(ctx):
             ctx.count('decision', '%s/%s' % (H.DECISION_NAMES[d], 'cl' if c is not None else 'None'))
         ctx.count('idempotent', str(bool(sc['idem'])))
     ctx.exhaustive = True
-    ctx.rule = ('grid (complete): 9 failure kinds x 4 decisions x {None, cl} x idempotent? x same host usable?, each followed by two '
-                'more failures and decisions; explicit-target cases; random legal histories (walk of the implementation\'s enabled '
+    ctx.rule = ('grid (complete): 9 failure kinds x 4 decisions x {None, ANY, ALL} x idempotent? x same host usable?, each followed by two '
+                'more failures and decisions; all 11 consistency levels and None x RETRY/RETRY_NEXT_HOST x initial level; two attempts in '
+                'flight (speculative execution) x failure kind x decision x which attempt fails first; BoundStatement/PreparedStatement '
+                'idempotence flags that differ x speculative policy x max_attempts; explicit-target cases; random legal histories (walk of the implementation\'s enabled '
                 'operations: responses of all kinds, executor runs in any order, speculative firings, pool changes) with random '
                 'scripted decisions. Non-trivial = at least two operations; distinct = distinct scenario incl. history.')
     K.evaluate(ctx, PID, items)
